@@ -56,6 +56,10 @@ def gen(rng, tier, n):
     # concurrent publishers with a live resumable subscription (implementation-side judge)
     for _ in range(4 if tier == "quick" else 40):
         cases.append(["kind mem", "plan - -", "racepub %d %d" % (rng.randint(2, 8), rng.choice([100, 300]))])
+    # a catch-up over the real SQLite store whose context is cancelled inside a page (implementation-side judge)
+    for _ in range(6 if tier == "quick" else 60):
+        n = rng.randint(4, 14)
+        cases.append(["kind mem", "plan - -", "cancelresume %d %d %d" % (rng.choice([0, 2, 3, 5, 5, 8]), n, rng.randint(1, n))])
     return cases
 
 def gen_racepub(rng, tier, n):
@@ -64,6 +68,8 @@ def gen_racepub(rng, tier, n):
 def nontrivial(prop, lines, impl):
     if prop == "C09" or any(l.startswith("racepub") for l in lines):
         return bool(impl) and impl[0] == "racepub ok"
+    if any(l.startswith("cancelresume") for l in lines):
+        return bool(impl) and impl[0] == "cancelresume ok"
     return bool(impl) and any(l.startswith("id ") and "delivered=-" not in l for l in impl) and any(l == "restart" for l in lines[:-3])
 
 def property_fails(prop, lines, impl, model):
